@@ -213,6 +213,12 @@ class Exec:
         f = e.func
         if any(k.arg is None for k in e.keywords):
             raise Unsupported("** arguments")
+        # `list(metrics)` / `tuple(metrics)`: materialising the iterable of sources (so that it can be walked twice) is the
+        # identity on the symbolic sources
+        if isinstance(f, ast.Name) and f.id in ("list", "tuple") and len(e.args) == 1 and not e.keywords:
+            a0 = self.ev(e.args[0], env)
+            if a0 == ("metrics",):
+                return a0
         # method calls
         if isinstance(f, ast.Attribute):
             # self.method(...)  -> inline
